@@ -306,6 +306,10 @@ func genVariant(r *Rng, batchSizes []int, lehmer int64, mapSeed bool, delays boo
 	if mapSeed {
 		v.MapSeed = r.Uint64() | 1
 	}
+	if r.Bool(0.15) {
+		v.GateReads = true
+		v.SchedSeed = r.Uint64() | 1
+	}
 	if delays && r.Bool(0.3) {
 		total := 0
 		for _, n := range batchSizes {
